@@ -224,6 +224,11 @@ CORPUS = [
         {"id": 4, "kind": "dot", "ins": [10, 4], "outs": [6, 7]},
         {"id": 5, "kind": "tf", "ins": [6, 7], "outs": [8], "fn": "lin", "k": 0},
         {"id": 6, "kind": "gather", "ins": [8, 5], "outs": [9], "depth": 1}]},
+    # a workflow without declared output ports (the executor's `await asyncio.gather(*self.executions)` branch)
+    {"nports": 5, "no_outputs": True, "sources": [{"port": 0, "value": [4, 5, 6]}], "closed": [], "nodes": [
+        {"id": 0, "kind": "scatter", "ins": [0], "outs": [1, 2]},
+        {"id": 1, "kind": "tf", "ins": [1], "outs": [3], "fn": "add", "k": 2},
+        {"id": 2, "kind": "gather", "ins": [3, 2], "outs": [4], "depth": 1}]},
     {"nports": 7, "sources": [{"port": 0, "value": [2, 7, 4]}], "closed": [], "nodes": [
         {"id": 0, "kind": "scatter", "ins": [0], "outs": [1, 2]},
         {"id": 1, "kind": "tf", "ins": [1], "outs": [3], "fn": "add", "k": 3},
@@ -609,7 +614,8 @@ async def build(context, spec: dict, workdir: str):
     # every port without a consumer is a workflow output (otherwise the executor never reads it)
     consumed = {p for n in spec["nodes"] for p in n["ins"]}
     for i, port in enumerate(ports):
-        if i not in consumed:
+        if i not in consumed and not spec.get("no_outputs"):
+            # ("no_outputs": the workflow declares no output port at all: StreamFlowExecutor.run then simply awaits the steps)
             workflow.output_ports[f"out{i}"] = port.name
     await workflow.save(context.database)
     # sources: persisted token then termination; closed ports: termination only
